@@ -49,13 +49,17 @@ def run_acceptor(ctx, rs, lines, metas):
     ctx.exhaustive = True
     bfs_seen = {}
     viol = []
+    nsamp = 0
     for c in cases:
         ml, cl = c["ml"], c["cl"]
         tok, log, exc, untouched = ml_.real_accept(ml_.as_container(ml, c["container"]), ml_.as_container(cl, c["container"]))
         c["real"] = tok
         both = len(ml) > 0 and len(cl) > 0
+        show = both and nsamp < 3 and len(ml) + len(cl) >= 3 and (ctx.evaluations % 1499 == 7 or c["kind"].startswith("random"))
+        nsamp += show
         ctx.case((tuple(ml), tuple(cl), c["container"]), both,
-                 {"must_link": _plain(ml), "cannot_link": _plain(cl), "container": c["container"], "verdict": tok})
+                 {"must_link": _plain(ml), "cannot_link": _plain(cl), "container": c["container"], "verdict": tok,
+                  "kind": c["kind"]} if show else None)
         ctx.count("acceptor:" + c["kind"].split("(")[0].split(":")[0])
         ctx.count("verdict:" + tok.split(":")[0])
         inp = {"must_link": _plain(ml), "cannot_link": _plain(cl), "container": c["container"]}
@@ -132,7 +136,9 @@ def gen_grad_case(ctx, rs, family, force_bs="rand", n=None):
     n = n or int(rs.randint(3, 11 if ctx.tier == "quick" else 15))
     K = int(rs.randint(2, min(4, n) + 1))
     d = int(rs.randint(1, 4))
-    X = np.round(rs.randn(n, d), 3) + np.arange(n)[:, None] * 1e-3   # distinct rows
+    X = np.round(rs.randn(n, d), 3) + np.arange(n)[:, None] * 1e-5   # distinct rows: samples are recognised by their data
+    if len({X[i].tobytes() for i in range(n)}) != n:
+        raise core.MachineryError("generator produced repeated data rows")
     gem = ml_.GEMINIS[rs.randint(len(ml_.GEMINIS))]
     if gem.startswith("wasserstein") and n > 8:
         gem = "mmd_ova"
@@ -207,7 +213,7 @@ def run_gradients(ctx, rs, lines, metas):
             inb = sum(1 for (a, c) in g["ml"] + g["cl"] if a in samples and c in samples)
             ctx.case((fam, repr(sorted(g["params"].items(), key=str)), tuple(idx), tuple(g["ml"]), tuple(g["cl"]), y.tobytes()),
                      inb > 0, {"family": fam, "batch": idx, "must_link": _plain(g["ml"]), "cannot_link": _plain(g["cl"]),
-                               "factor": g["factor"], "pairs_in_batch": inb} if bi == 0 else None)
+                               "factor": g["factor"], "pairs_in_batch": inb} if (inb > 0 and len(ctx.samples) < 5) else None)
             ctx.count("grad:pairs-in-batch:%d" % min(inb, 4))
             ctx.count("grad:batch-len:%s" % ("1" if b == 1 else ("n" if b == len(X) else "1<b<n")))
             if idx != samples:
@@ -290,6 +296,10 @@ def run(ctx):
                     "with scipy as a set on every recorded call)",
                     "sklearn.utils.check_array decides what is a 2-D integer array (malformed shapes are judged by the oracle only)",
                     "CPython set iteration order (`list(set(...))`) is an input of the model, replicated by the harness"]
+    fp = ml_.source_fingerprints()
+    ctx.extra["fingerprints"] = {k: {"hash": v, "modelled_as": ml_.MODELLED.get(k, {}).get(v, "UNKNOWN to the hand model (tie = this run's correspondence only)")}
+                                 for k, v in fp.items()}
+    ctx.extra["fingerprints_changed"] = sorted(k for k, v in fp.items() if v not in ml_.MODELLED.get(k, {}))
     rs = np.random.RandomState(ctx.seed * 104729 + 14)
     lines, metas = [], []
     cases = run_acceptor(ctx, rs, lines, metas)
